@@ -262,6 +262,7 @@ func (g *GroupSet) resultWriteUnformatted(query *Query, rows []result, fd *os.Fi
 			os.Remove(tmpOutfile)
 			return err
 		}
+		vhook.Point("outfile.renamed")
 	}
 
 	return nil
